@@ -1,5 +1,6 @@
 import EmbitModel.Proofs.PyCurvePoints
 import EmbitModel.Proofs.EcLaws
+import EmbitModel.Model.PyCurveOps
 import Mathlib.GroupTheory.SpecificGroups.Cyclic
 /-
   `pyEcOps C n g`: the abstract curve record `EcOps` (over which `Model/PySecp.lean`, the libsecp contract and
@@ -17,10 +18,8 @@ open WeierstrassCurve WeierstrassCurve.Jacobian
 
 variable (C : Curve) [Fact C.p.Prime]
 
-/-- the tuple `ECPubKey` stores for an affine value -/
-def toJ : Option (ℕ × ℕ) → JPt
-  | none => inf
-  | some (x, y) => ((x : ℤ), (y : ℤ), 1)
+/-! `toJ` (the tuple `ECPubKey` stores for an affine value) and `eInvN` (`modinv(·, n)` on naturals) are defined in
+    Model/PyCurveOps.lean (Mathlib-free: the driver's record `lawfulOps` uses the same two functions). -/
 
 /-- canonical points: infinity, or the reduced coordinates of a point of the curve -/
 abbrev APt : Type := { q : Option (ℕ × ℕ) // Valid C (toJ q) }
@@ -158,7 +157,6 @@ noncomputable def eLiftX (x : ℕ) : Option (APt C) :=
   match setCompressed C false x with
   | some (some J) => some (ofJ C J)
   | _ => none
-def eInvN (n a : ℕ) : ℕ := ((modinv (a : ℤ) (n : ℤ)).getD 0).toNat
 
 /-- key.py's arithmetic as an `EcOps` (`n` the claimed order, `g` the generator as a canonical point).
     `mul`: key.py's loop reads 256 bits of the scalar; every caller passes a value below `2^256` (a 32-byte
